@@ -23,7 +23,7 @@ def main():
         SCR.parent.mkdir(parents=True, exist_ok=True)
         print(sh(f"git -C /repo worktree add --detach {SCR} HEAD").stdout)
     sh(f"git -C {SCR} checkout -q --detach $(git -C /repo rev-parse HEAD) && git -C {SCR} reset -q --hard && git -C {SCR} clean -fdq")
-    names = args or sorted(p.name for p in (VERIF / "seeded").iterdir() if (p / "patch.diff").exists())
+    names = args or sorted(p.name for p in (VERIF / "seeded").iterdir() if not p.name.startswith("_") and (p / "patch.diff").exists())
     summary = {}
     for name in names:
         d = VERIF / "seeded" / name
